@@ -9,7 +9,10 @@ import (
 	"github.com/canopy-network/canopy/lib"
 )
 
-type capLog struct{ lib.LoggerI; out *[]string }
+type capLog struct {
+	lib.LoggerI
+	out *[]string
+}
 
 func (c capLog) Errorf(f string, a ...any) {
 	s := fmt.Sprintf(f, a...)
@@ -24,15 +27,21 @@ func TestDebugUnequal(t *testing.T) {
 			spec := &GenesisSpec{ChainID: 1, Params: fsm.DefaultParams(), Accounts: map[string]uint64{}}
 			for i := 0; i < n; i++ {
 				stake := uint64(1_000_000)
-				if style == 1 { stake = uint64(1+i) * 1_000_000 }
-				if style == 2 { stake = uint64(1 + i%5) }
+				if style == 1 {
+					stake = uint64(1+i) * 1_000_000
+				}
+				if style == 2 {
+					stake = uint64(1 + i%5)
+				}
 				spec.Validators = append(spec.Validators, GenesisVal{Key: BLSKey(i), Stake: stake, Committees: []uint64{1}, Compound: true})
 				spec.Accounts[BLSKey(i).PublicKey().Address().String()] = 1_000_000
 			}
 			a0, a1 := EdKey(0), EdKey(1)
 			spec.Accounts[a0.PublicKey().Address().String()] = 1_000_000_000
 			ch, err := NewChain(spec, 1, nil)
-			if err != nil { t.Fatal(err) }
+			if err != nil {
+				t.Fatal(err)
+			}
 			tx, _ := fsm.NewSendTransaction(a0, a1.PublicKey().Address(), 1000, NetworkID, 1, 10000, ch.Nodes[0].Height(), "")
 			bz, _ := lib.Marshal(tx)
 			_, err = ch.Step(0, [][]byte{bz}, nil)
